@@ -57,6 +57,9 @@ class HistGen:
         r = self.rng
         if self.readd and self.free_again and r.random() < 0.5:
             oid = self.free_again.pop(r.randrange(len(self.free_again)))
+        elif self.used and r.random() < 0.08 and self._twin(r.choice(self.used)) not in self.used:
+            # the same 128 bits in the OTHER id format: a different order id
+            oid = self._twin(r.choice([k for k in self.used if self._twin(k) not in self.used]))
         else:
             oid = ("u%d" if r.random() < 0.7 else "l%d") % self.next_id
             self.next_id += 1
@@ -87,10 +90,16 @@ class HistGen:
                          amt=r.choice([None, None, 0, 1, 3, 10, 100]), auto=r.random() < 0.7,
                          trail=r.randint(0, 9), lastref=r.randint(0, 9), off=r.randint(-5, 5), peg=r.choice(gen.PEGS))
 
+    @staticmethod
+    def _twin(k):
+        return ("l" if k[0] == "u" else "u") + k[1:]
+
     def pick_id(self):
         r = self.rng
-        if self.used and r.random() < 0.85:
+        if self.used and r.random() < 0.8:
             return r.choice(self.used)
+        if self.used and r.random() < 0.5:
+            return self._twin(r.choice(self.used))      # same bits, other format: usually NOT a resting id
         return "u%d" % r.randint(900, 905)       # never added
 
     def update(self):
